@@ -36,6 +36,8 @@ def instances(tier):
         out.append((T, h, [], {'weight': 60}))
     for n in ([0, 1, 3] if tier == 'quick' else [0, 1, 2, 3, 4]):
         out.append((T, 'VH_C03_vmstack', [n], {'weight': 20 + 10 * n}))
+    for nr in ([2, 4] if tier == 'quick' else [0, 1, 2, 3, 4]):
+        out.append((T, 'VH_C03_vmcellslice', [nr], {'weight': 30}))
     for (n, pre) in ([(0, 0), (1, 7), (127, 5), (128, 0), (130, 1022)] if tier == 'quick' else [(0, 0), (1, 7), (2, 1016), (127, 0), (127, 5), (127, 8), (128, 0), (130, 1022), (256, 3), (300, 0)]):
         out.append((T, 'VH_C03_bytes_snake', [n, pre], {'weight': 20 + n}))
     return out
@@ -44,7 +46,7 @@ def instances(tier):
 CHECK = dict(
     id='C03', pkgs=['tlb'], init_pkgs=['std:io', 'boc', 'tlb'], instances=instances, opts={'budget_s': 900},
     gen=[('harness/gen/gen_ints.py', 'tlb', 'gen_ints.go'), ('harness/gen/gen_bigints.py', 'tlb', 'gen_bigints.go')],
-    level_text='Every generated fixed-width integer type (harness generated from the current tlb/integers.go) is encoded and decoded symbolically over its ENTIRE n-bit domain at several bit offsets, with arbitrary neighbouring bits: round trip, exact consumption, identical re-encoding.  Bytes/SnakeData (hand-written snake codec): n symbolic bytes written into a cell already holding `pre` bits are laid out as tail/cons of the schema (first 1023-pre bits in the root, continuation cells of at most 1023 bits in a chain of single references) and decode back to the same bytes.  VM stacks of 0..3 tiny ints: Marshal lays the list out top-first in the chain of rest references exactly as vm_stack / vm_stk_cons prescribe, Unmarshal lists the entries bottom-first (the documented convention).',
+    level_text='Every generated fixed-width integer type (harness generated from the current tlb/integers.go) is encoded and decoded symbolically over its ENTIRE n-bit domain at several bit offsets, with arbitrary neighbouring bits: round trip, exact consumption, identical re-encoding.  Bytes/SnakeData (hand-written snake codec): n symbolic bytes written into a cell already holding `pre` bits are laid out as tail/cons of the schema (first 1023-pre bits in the root, continuation cells of at most 1023 bits in a chain of single references) and decode back to the same bytes.  VM stacks of 0..3 tiny ints: Marshal lays the list out top-first in the chain of rest references exactly as vm_stack / vm_stk_cons prescribe, Unmarshal lists the entries bottom-first (the documented convention).  vm_stk_slice records (VmCellSlice): every valid bit window and reference window over a cell with 2 or 4 (quick) / 0..4 (thorough) references encodes to one reference plus 10+10+3+3 bits as the schema prescribes and decodes to the same window over the same cell.',
     level_note='work in progress: big integers, hand-written codecs and reflection-driven structs follow',
     bounds={'quick': {'types': 'all UintN/IntN in tlb/integers.go', 'bit offsets': [0, 7]}, 'thorough': {'bit offsets': [0, 1, 2, 3, 4, 5, 6, 7, 13]}},
     outside_claim=['abi generated bodies', 'types needing encoding/json or cgo'],
